@@ -338,7 +338,12 @@ def c09(ctx):
               {"fen": "6k1/5ppp/8/8/8/8/8/R3R1K1 w - -", "depth": 4},
               {"fen": "r4rk1/1pp1qppp/p1np1n2/2b1p1B1/2B1P1b1/P1NP1N2/1PP1QPPP/R4RK1 w - -", "depth": 2 if quick else 3},
               {"fen": "8/2p5/3p4/KP5r/1R3p1k/8/4P1P1/8 w - -", "depth": 4},
-              {"fen": "3r2k1/5ppp/8/8/8/8/5PPP/3RR1K1 b - -", "depth": 4}]
+              {"fen": "3r2k1/5ppp/8/8/8/8/5PPP/3RR1K1 b - -", "depth": 4},
+              # double steps next to enemy pawns: transpositions that differ only in the en-passant target
+              {"fen": "4k3/8/8/8/1p1p1p2/8/P1P1P1P1/4K3 w - -", "depth": 4},
+              {"fen": "4k3/p1p1p1p1/8/1P1P1P2/8/8/8/4K3 b - -", "depth": 4},
+              {"fen": "6k1/8/8/8/1p1p4/1k6/P1P1P3/4K2R w - -".replace("1k6", "8"), "depth": 4},
+              {"fen": "2b5/8/8/8/p1pp4/8/1P2PP2/R3K3 w Q -", "depth": 4}]
     np_ = ctx.path("native_cases.json")
     with open(np_, "w") as f:
         json.dump(NATIVE, f)
